@@ -2,7 +2,7 @@
    written as the code is:
      set_atomic_value / set_opaque_value / set_predicated_value /
      set_literal_value, R.add, R[w], _complete_frames, finish (generic part;
-     the classical identity/existence completion is in Classical.v),
+     the classical identity/existence completion is in Classical.v / ClassicalFix.v),
      value_of (type dispatch, opaque sentences, the unassigned value,
      truth-functional operators through the table, quantifiers by
      substitution `c >> s` over the model's constants, modal operators over
@@ -228,8 +228,35 @@ Definition complete_frames (L : mlogic) (st : state) : option state :=
           s_consts := s_consts st; s_sents := s_sents st;
           s_complete := true; s_finished := false |}.
 
-(* BaseModel.finish (the generic one): _complete_frames; R.enforce() *)
+Definition set_flags (st : state) (c f : bool) : state :=
+  {| s_fkeys := s_fkeys st; s_atoms := s_atoms st; s_opaqs := s_opaqs st;
+     s_pkeys := s_pkeys st; s_preds := s_preds st; s_R := s_R st;
+     s_consts := s_consts st; s_sents := s_sents st;
+     s_complete := c; s_finished := f |}.
+
+(* the common prefix of BaseModel.finish and cpl.Model.finish (fix 422cec3 / a424a77):
+     self._complete_frames(); self.R.enforce();
+     self._is_frame_complete = False; self._complete_frames()
+   so that the worlds enforce() adds (SerialAccess) get frames too *)
+Definition pre_complete (L : mlogic) (st : state) : option state :=
+  match complete_frames L st with
+  | None => None
+  | Some st1 =>
+      match enforce (ml_access L) (s_R st1) with
+      | None => None
+      | Some r => complete_frames L (set_flags (with_R st1 r) false (s_finished st1))
+      end
+  end.
+
+(* BaseModel.finish (the generic one) *)
 Definition base_finish (L : mlogic) (st : state) : option state :=
+  match pre_complete L st with
+  | None => None
+  | Some st2 => Some (set_flags st2 true true)
+  end.
+
+(* BaseModel.finish BEFORE fix 422cec3: _complete_frames; R.enforce() *)
+Definition base_finish_old (L : mlogic) (st : state) : option state :=
   match complete_frames L st with
   | None => None
   | Some st1 =>
